@@ -381,7 +381,6 @@ Proof.
           | do 2 eexists; vm_compute; repeat split; reflexivity ].
 Qed.
 
-<<<<<<< HEAD
 (* ================================================================== (G) proto/binary Skip from the Go source *)
 (* Skip / SkipFixed32Type / SkipFixed64Type / SkipBytesType are translated from proto/binary/binary_skip.go on every build
    (gen/Gen_protoskip.v).  For the four wire types of proto3 Skip succeeds exactly when the model's wire decoder wdec_val reads one value
@@ -393,7 +392,6 @@ Theorem C10_Skip_from_source :
   (forall buf rd wt u, wt <> 0 -> wt <> 1 -> wt <> 2 -> wt <> 5 -> Gen_protoskip.BinaryProtocol_Skip buf rd wt u = (0, buf, rd)).
 Proof. split; [exact GenProtoskipProofs.Skip_is_wdec_val | exact GenProtoskipProofs.Skip_other]. Qed.
 Print Assumptions C10_Skip_from_source.
-=======
 (* non-vacuity at depth 3: M0 { 3: M1 { 2: M1 { 1: string } } }: replace the innermost string by 130 bytes (all three
    enclosing lengths go from 1 to 2 bytes), then append an absent field two levels down *)
 Definition exS3 : schema :=
@@ -409,4 +407,3 @@ Example C10_history_refines_msgpath_example :
    = [(1, VBytes 9 [120]);
       (3, VMsg [(2, VMsg [(1, VBytes 9 (repeat 98 130%nat)); (7, VScalar 16 (-5))]); (1, VBytes 9 [])])]).
 Proof. vm_compute. repeat split; reflexivity. Qed.
->>>>>>> c10-pedit
